@@ -1,7 +1,10 @@
 """C15 helper: writer PROCESS that gets killed.  argv[1] = database file.  Reads one JSON list of
-operations from stdin ([["set", s, k, value] | ["del", s, k] | ["delall", s]]), performs them through the
+operations from stdin ([["set", s, k, value] | ["setbig", s, k, char, size] | ["del", s, k] | ["delall", s] |
+["wait"]]), performs them through the
 real vinegar DataStore one after the other and acknowledges each completed operation by writing one
-byte 'A' to stdout (unbuffered); writes 'Z' when everything is done and then waits to be killed."""
+byte 'A' to stdout (unbuffered); writes 'Z' when everything is done and then waits to be killed.
+["setbig", ...] stores the str char*size (a statement that spans many pages); ["wait"] writes 'W' and blocks
+until the parent sends a line on stdin (so that the parent can sample /proc/<pid>/io before the next statement)."""
 import json
 import os
 import sys
@@ -15,8 +18,14 @@ def main():
     store = open_data_store(sys.argv[1])
     os.write(1, b"R")                      # ready: tables exist
     for op in ops:
+        if op[0] == "wait":
+            os.write(1, b"W")
+            sys.stdin.readline()
+            continue
         if op[0] == "set":
             store.set_value(op[1], op[2], op[3])
+        elif op[0] == "setbig":
+            store.set_value(op[1], op[2], op[3] * op[4])
         elif op[0] == "del":
             store.delete_value(op[1], op[2])
         else:
